@@ -73,14 +73,18 @@ FailPlans(ids, n) == {[i \in 1 .. Cardinality(T) |-> F(SetToSeq(T)[i])] : T \in 
 \* C04: every depth profile, one callback per step, no faults
 StepsC04(b, d, try) ==
   [k \in 1 .. d |-> <<Item(IdOf(b, k - 1, 1), IF try /\ k % 2 = 0 THEN "and_then" ELSE "map", "closure", <<>>)>>]
-ProgC04(kind, prof, h) ==
-  Prog(kind, "res",
+ProgC04c(kind, carrier, prof, h) ==
+  Prog(kind, carrier,
        [i \in 1 .. Len(prof) |-> Branch(i - 1, IF i % 2 = 0 THEN "let" ELSE "none", "expr", StepsC04(i - 1, prof[i], kind.try))],
        IF h THEN (IF kind.try THEN "map" ELSE "then") ELSE "none")
+ProgC04(kind, prof, h) == ProgC04c(kind, "res", prof, h)
+WideC04 == {<<2, 1, 3, 1, 2>>, <<1, 3, 2, 3, 1, 2>>, <<3, 2, 1, 1, 2, 3>>}      \* five and six branches, non-monotone
 FamC04(dummy) ==
   LET nmax == IF Tier = "quick" THEN 3 ELSE 4
       dmax == 3
-  IN  {Run(ProgC04(kd, pr, h), <<>>, {}) : kd \in Kinds8, pr \in Profiles(nmax, dmax), h \in BOOLEAN}
+  IN  {Run(ProgC04(kd, pr, h), <<>>, {}) : kd \in Kinds8, pr \in Profiles(nmax, dmax) \cup WideC04, h \in BOOLEAN}
+      \cup {Run(ProgC04c(Kind(FALSE, t, sp), "opt", pr, h), <<>>, {}) : t \in BOOLEAN, sp \in BOOLEAN, h \in BOOLEAN,
+               pr \in {<<2>>, <<1, 2>>, <<3, 1, 2>>, <<1, 2, 2>>, <<2, 1, 3, 1, 2>>}}
 
 \* C05/C06: try macros, every placement of <= 2 (quick) / 3 failures over and_then items and initial values
 StepsC05(b, d, variant) ==
